@@ -6,3 +6,4 @@ pub mod parsing;
 pub mod loops;
 pub mod promise;
 pub mod ctor;
+pub mod decode;
